@@ -8,7 +8,9 @@ CONSTANTS
   Den = 60
   N = 3
   Starts = {1, 2, 3}
-  Modes = {"geom", "merge", "route"}
+  Modes = {"geom", "merge", "route", "hist"}
+  MaxMut = 2
+  DEV_SetterKeepsDistance = FALSE
   DEV_NoLoopGuard = FALSE
 INVARIANT LawStart
 INVARIANT LawMonotone
@@ -19,6 +21,10 @@ INVARIANT LawOffset
 INVARIANT LawGrid
 INVARIANT LawMerge
 INVARIANT LawMergedPoint
+INVARIANT HistCoherent
+INVARIANT HistRigid
+INVARIANT LawRigidPoint
+INVARIANT HistStretch
 INVARIANT InvResult
 INVARIANT InvSound
 INVARIANT InvBound
